@@ -121,6 +121,41 @@ def cases(seed, tier):
         c["script"][0]["inject"] = [{"id": "pl", "at": {"msg": n_, "plus": rng.choice([0, 1, 2])}, "do": "pause"}]
         c["script"][0]["decisions"] = [{"do": "resume"}]
         yield c
+    # a history on one engine and one device: a relative move that failed in an earlier call, the motor repositioned
+    # by other means, then a relative plan - its offsets count from where the motor stands *now*
+    for j in range(2):
+        S2 = pg.S
+        off1 = rng.choice([1.0, -0.5, 2.0])
+        X = rng.choice([4.0, -3.0, 7.5])
+        third = rng.choice(["mvr", "rel_set", "rel_scan", "rel_list_scan"])
+        if third == "mvr":
+            off = rng.choice([1.0, -1.5])
+            plan3 = [{"op": "stub", "name": "mvr", "args": [{"dev": "m1"}, off]}]
+            offs, resets = [off], False
+        elif third == "rel_set":
+            off = rng.choice([0.5, 2.0])
+            plan3 = [{"op": "stub", "name": "rel_set", "args": [{"dev": "m1"}, off], "kw": {"wait": True}}]
+            offs, resets = [off], False
+        elif third == "rel_scan":
+            plan3 = [{"op": "plan", "name": "rel_scan", "args": [D, {"dev": "m1"}, -1.0, 1.0, 3]}]
+            offs, resets = linspace(-1.0, 1.0, 3), True
+        else:
+            pts = [0.5, -1.0]
+            plan3 = [{"op": "plan", "name": "rel_list_scan", "args": [D, {"dev": "m1"}, pts]}]
+            offs, resets = pts, True
+        first = rng.choice(["mvr", "rel_set"])
+        plan1 = [{"op": "stub", "name": first, "args": [{"dev": "m1"}, off1], **({"kw": {"wait": True}} if first == "rel_set" else {})}]
+        c = copy.deepcopy(case)
+        c["variant"] = f"history-{j}"
+        c["devices"]["m1"].pop("faults", None)
+        c["devices"]["m1"]["faults"] = {"set#0": {"kind": rng.choice(["raise", "status_fail"]), "exc": "RuntimeError", "delay": 0.0}}
+        c["script"] = [
+            {"do": "call", "plan": plan1, "tag": "failed-relative-move"},
+            {"do": "call", "plan": [{"op": "stub", "name": "mv", "args": [{"dev": "m1"}, X]}], "tag": "reposition"},
+            {"do": "call", "plan": plan3, "main": True},
+        ]
+        c["expect"] = {"offsets": {"m1": offs}, "sets": [], "resets": resets, "kind": third, "history": {"call": 2, "initial": {"m1": X}}}
+        yield c
 
 
 def exp_motors(case):
@@ -139,7 +174,14 @@ def check(res):
         return out
     case = res.case
     exp = case["expect"]
-    inv = v.invocations[0]
+    hist = exp.get("history")  # {"call": index of the call under test, "initial": {motor: where it stood when that call began}}
+    if hist and len(v.invocations) <= hist["call"]:
+        return out
+    inv = v.invocations[hist["call"]] if hist else v.invocations[0]
+
+    def init_of(motor):
+        return hist["initial"][motor] if hist else case["devices"][motor]["initial"]
+
     evs = inv.events
     last = inv.calls[-1]
     if last.end is None or last.state != "idle":
@@ -149,7 +191,7 @@ def check(res):
     # statement is about how the *plan* ends, so that compound case is counted, not asserted
     term = next((e.seq for e in evs if e.kind == "state" and e.d["new"] in ("stopping", "aborting")), None)
     for motor in exp["offsets"]:
-        ini = case["devices"][motor]["initial"]
+        ini = init_of(motor)
         if any(e.kind == "dev" and e.d["dev"] == motor and e.d["method"] == "set" and e.d.get("fault") and close(e.d["value"], ini) for e in evs):
             res.notes["fault_in_the_reset_move_itself"] = 1
             halted = True
@@ -157,20 +199,20 @@ def check(res):
     # wait, then the replayed earlier move fails): the exception is thrown into the reset plan itself
     for f in [e for e in evs if e.kind == "dev" and e.d.get("fault")]:
         for motor in exp["offsets"]:
-            ini = case["devices"][motor]["initial"]
+            ini = init_of(motor)
             msets = [e for e in evs if e.kind == "dev" and e.d["dev"] == motor and e.d["method"] == "set" and e.seq < f.seq]
             if len(msets) > 1 and any(close(e.d["value"], ini) for e in msets[1:]):
                 res.notes["failure_during_reset"] = 1
                 halted = True
     if term is not None:
         for motor in exp["offsets"]:
-            ini = case["devices"][motor]["initial"]
+            ini = init_of(motor)
             msets = [e for e in evs if e.kind == "dev" and e.d["dev"] == motor and e.d["method"] == "set"]
             if msets and close(msets[-1].d["value"], ini) and msets[-1].seq < term and len(msets) > 1:
                 res.notes["terminated_during_reset"] = 1
                 halted = True
     for motor, offs in exp["offsets"].items():
-        initial = case["devices"][motor]["initial"]
+        initial = init_of(motor)
         sets = [e for e in evs if e.kind == "dev" and e.d["dev"] == motor and e.d["method"] == "set"]
         if not sets:
             continue
